@@ -219,8 +219,14 @@ func buildJobs(seed int64, n int, repoWarriors string) ([]job, []*gmars.WarriorD
 
 func runJob(j job, shared []*gmars.WarriorData, sharedW []wdata) []string {
 	if j.kind == "asm" {
-		res := assembleResult(j.text, j.cfg)
-		return []string{fmt.Sprintf(`{"ev":"job","id":%d,"kind":"asm","M":%d,"P":%d,"D":%d,"res":%s}`, j.id, int(j.cfg.CoreSize), int(j.cfg.Processes), int(j.cfg.Distance), res)}
+		// the same text is assembled twice; the caller scribbles over the first result in between (it owns it), which
+		// must not show in the second: both results go into the comparison of this job
+		var lines []string
+		for k := 0; k < 2; k++ {
+			res := assembleResult(j.text, j.cfg)
+			lines = append(lines, fmt.Sprintf(`{"ev":"job","id":%d,"kind":"asm","M":%d,"P":%d,"D":%d,"res":%s}`, j.id, int(j.cfg.CoreSize), int(j.cfg.Processes), int(j.cfg.Distance), res))
+		}
+		return lines
 	}
 	if j.kind == "smallcore" {
 		// shared data built for a larger core in a small simulator: run it, record nothing but completion
@@ -296,7 +302,15 @@ func assembleResult(text string, cfg gmars.SimulatorConfig) (res string) {
 	for i := range w.Code {
 		code[i] = fromG(w.Code[i])
 	}
-	return fmt.Sprintf(`{"err":0,"code":%s,"start":%d,"name":%s,"author":%s}`, insListJSON(code), w.Start, jq(w.Name), jq(w.Author))
+	res = fmt.Sprintf(`{"err":0,"code":%s,"start":%d,"name":%s,"author":%s}`, insListJSON(code), w.Start, jq(w.Name), jq(w.Author))
+	// the result belongs to the caller, who now overwrites it
+	for i := range w.Code {
+		w.Code[i] = gmars.Instruction{Op: gmars.SPL, A: gmars.Address(i + 1), B: 7}
+	}
+	w.Code = append(w.Code, gmars.Instruction{Op: gmars.JMP})
+	w.Start = len(w.Code) - 1
+	w.Name, w.Author = "overwritten", "by the caller"
+	return res
 }
 
 func cmdJobs(args []string) {
